@@ -159,6 +159,14 @@ pub trait Prop: Sync + Send + 'static {
     ) -> Outcome;
     /// Smaller variants of a failing case, most aggressive first.
     fn shrink(&self, case: &Self::Case) -> Vec<Self::Case>;
+    /// Options that make `jiffsim worker` / `jiffsim exec-case` construct
+    /// this property.
+    fn worker_args(&self) -> Vec<String>;
+    /// Execute minimisation candidates and replays in a child process
+    /// (for properties whose violations can corrupt the process).
+    fn isolate(&self) -> bool {
+        false
+    }
     fn size(&self, case: &Self::Case) -> usize;
 }
 
@@ -232,6 +240,12 @@ pub fn worker_loop<P: Prop>(
     }
     let mut harness_error: Option<String> = None;
     let mut found: Option<Found<P::Case>> = None;
+    // Which run is executing, so that the parent can attribute a crash.
+    let marker = if p.isolate() {
+        std::fs::File::create(out.join("current")).ok()
+    } else {
+        None
+    };
     let mut block = index;
     'outer: while block * BLOCK < runs {
         if stop_file.exists() || start.elapsed().as_secs_f64() > budget_s {
@@ -239,6 +253,10 @@ pub fn worker_loop<P: Prop>(
         }
         let lo = block * BLOCK;
         for run in lo..(lo + BLOCK).min(runs) {
+            if let Some(m) = marker.as_ref() {
+                use std::os::unix::fs::FileExt;
+                let _ = m.write_all_at(&run.to_le_bytes(), 0);
+            }
             let (case, sched) = derive(p, verif_seed, run, tier);
             let case = Arc::new(case);
             let want_sample = run < 2;
@@ -425,9 +443,35 @@ pub fn run_batch<P: Prop>(
             .ok()
             .and_then(|t| serde_json::from_str::<Value>(&t).ok());
         let Some(summary) = summary else {
-            harness_error.get_or_insert(format!(
-                "worker {w} left no summary (exit status {status:?})"
-            ));
+            use std::os::unix::process::ExitStatusExt;
+            let sig = status.as_ref().ok().and_then(|s| s.signal());
+            let cur = std::fs::read(out.join("current"))
+                .ok()
+                .filter(|b| b.len() == 8)
+                .map(|b| u64::from_le_bytes(b.try_into().unwrap()));
+            match (_p.isolate(), sig, cur) {
+                (true, Some(sig), Some(run)) => {
+                    // The worker died inside run `run`: that is a finding.
+                    let _ = std::fs::write(root.join("STOP"), b"stop");
+                    let (case, sched) = derive(&*_p, verif_seed, run, tier);
+                    founds.push(Found {
+                        run,
+                        run_seed: run_seed(verif_seed, run),
+                        case,
+                        sched,
+                        violations: vec![Violation {
+                            clause: "crash".into(),
+                            detail: format!("the worker process was killed by signal {sig} while executing this run"),
+                        }],
+                        choices: vec![],
+                    });
+                }
+                _ => {
+                    harness_error.get_or_insert(format!(
+                        "worker {w} left no summary (exit status {status:?})"
+                    ));
+                }
+            }
             continue;
         };
         if !ok {
@@ -508,6 +552,138 @@ pub fn cleanup_scratch() {
     let _ = std::fs::remove_dir_all(scratch_root());
 }
 
+fn violations_to_json(v: &[Violation]) -> Value {
+    Value::Array(v.iter().map(|v| json!([v.clause, v.detail])).collect())
+}
+
+fn violations_from_json(v: &Value) -> Vec<Violation> {
+    v.as_array()
+        .map(|a| {
+            a.iter()
+                .map(|v| Violation {
+                    clause: v[0].as_str().unwrap_or("").to_string(),
+                    detail: v[1].as_str().unwrap_or("").to_string(),
+                })
+                .collect()
+        })
+        .unwrap_or_default()
+}
+
+/// The `jiffsim exec-case` side of `exec_case`.
+pub fn exec_case_child<P: Prop>(p: &P, input: &std::path::Path, output: &std::path::Path) -> i32 {
+    let Ok(text) = std::fs::read_to_string(input) else { return 2 };
+    let Ok(v) = serde_json::from_str::<Value>(&text) else { return 2 };
+    let (Ok(case), Ok(sched)) = (
+        serde_json::from_value::<P::Case>(v["case"].clone()),
+        serde_json::from_value::<SchedSpec>(v["sched"].clone()),
+    ) else {
+        return 2;
+    };
+    let want_trace = v["want_trace"].as_bool().unwrap_or(false);
+    let dir = PathBuf::from(v["dir"].as_str().unwrap_or("/dev/shm/jiffsim-exec"));
+    let _ = std::fs::create_dir_all(&dir);
+    let ctx = WorkerCtx { index: 0, dir };
+    let out = p.execute(&Arc::new(case), &sched, &ctx, None, want_trace);
+    let res = json!({
+        "violations": violations_to_json(&out.violations),
+        "harness_error": out.harness_error,
+        "choices": out.choices,
+        "trace": out.trace,
+        "fingerprint": out.fingerprint,
+    });
+    if std::fs::write(output, serde_json::to_string(&res).unwrap()).is_err() {
+        return 2;
+    }
+    0
+}
+
+/// Executes one case under one schedule: in this process, or (if the
+/// property asks for isolation) in a child process whose death by a signal
+/// is itself reported as a violation.
+pub fn exec_case<P: Prop>(
+    p: &P,
+    case: &Arc<P::Case>,
+    sched: &SchedSpec,
+    ctx: &WorkerCtx,
+    want_trace: bool,
+) -> Outcome {
+    if !p.isolate() {
+        return p.execute(case, sched, ctx, None, want_trace);
+    }
+    let herr = |m: String| Outcome {
+        fingerprint: 0,
+        nontrivial: false,
+        violations: vec![],
+        harness_error: Some(m),
+        choices: vec![],
+        trace: Value::Null,
+    };
+    let _ = std::fs::create_dir_all(&ctx.dir);
+    let input = ctx.dir.join("exec-in.json");
+    let output = ctx.dir.join("exec-out.json");
+    let _ = std::fs::remove_file(&output);
+    let req = json!({
+        "case": serde_json::to_value(&**case).unwrap(),
+        "sched": serde_json::to_value(sched).unwrap(),
+        "want_trace": want_trace,
+        "dir": ctx.dir.join("child").to_string_lossy(),
+    });
+    if let Err(e) = std::fs::write(&input, serde_json::to_string(&req).unwrap()) {
+        return herr(format!("cannot write {}: {e}", input.display()));
+    }
+    let exe = match std::env::current_exe() {
+        Ok(e) => e,
+        Err(e) => return herr(format!("current_exe: {e}")),
+    };
+    let status = std::process::Command::new(exe)
+        .arg("exec-case")
+        .args(p.worker_args())
+        .arg("--in")
+        .arg(&input)
+        .arg("--out")
+        .arg(&output)
+        .stderr(std::process::Stdio::null())
+        .status();
+    let status = match status {
+        Ok(s) => s,
+        Err(e) => return herr(format!("cannot spawn exec-case: {e}")),
+    };
+    if !status.success() {
+        use std::os::unix::process::ExitStatusExt;
+        if let Some(sig) = status.signal() {
+            return Outcome {
+                fingerprint: 0,
+                nontrivial: true,
+                violations: vec![Violation {
+                    clause: "crash".into(),
+                    detail: format!("the process executing the case was killed by signal {sig}"),
+                }],
+                harness_error: None,
+                choices: sched.choices.clone(),
+                trace: Value::Null,
+            };
+        }
+        return herr(format!("exec-case failed: {status:?}"));
+    }
+    let Some(v) = std::fs::read_to_string(&output)
+        .ok()
+        .and_then(|t| serde_json::from_str::<Value>(&t).ok())
+    else {
+        return herr("exec-case left no output".into());
+    };
+    Outcome {
+        fingerprint: v["fingerprint"].as_u64().unwrap_or(0),
+        nontrivial: false,
+        violations: violations_from_json(&v["violations"]),
+        harness_error: v["harness_error"].as_str().map(|s| s.to_string()),
+        choices: v["choices"]
+            .as_array()
+            .map(|a| a.iter().map(|x| x.as_u64().unwrap_or(0) as u16).collect())
+            .unwrap_or_default(),
+        trace: v["trace"].clone(),
+    }
+}
+
 /// Greedy delta-debugging of a failing case. A candidate is kept when the
 /// same clause fails under the recorded choices or one of a few fresh
 /// schedules.
@@ -524,7 +700,7 @@ pub fn minimise<P: Prop>(
     let mut spent = 0usize;
     // First make sure the explicit schedule reproduces it.
     {
-        let out = p.execute(&Arc::new(best_case.clone()), &best_sched, ctx, None, false);
+        let out = exec_case(p, &Arc::new(best_case.clone()), &best_sched, ctx, false);
         spent += 1;
         if !out.violations.iter().any(|v| v.clause == clause) {
             // Fall back to the original scheduler specification.
@@ -551,7 +727,7 @@ pub fn minimise<P: Prop>(
                 tries.push(SchedSpec::draw(&mut r, p.est_len(&cand)));
             }
             for s in tries {
-                let out = p.execute(&cand, &s, ctx, None, false);
+                let out = exec_case(p, &cand, &s, ctx, false);
                 spent += 1;
                 if out.harness_error.is_none()
                     && out.violations.iter().any(|v| v.clause == clause)
@@ -602,7 +778,7 @@ pub fn write_replay<P: Prop>(
     let (case, sched, viol, _spent) = minimise(p, found, ctx, 2000);
     // Final confirmation run with the trace.
     let arc = Arc::new(case.clone());
-    let out = p.execute(&arc, &sched, ctx, None, true);
+    let out = exec_case(p, &arc, &sched, ctx, true);
     let clause = viol[0].clause.clone();
     let (sched, detail, trace) =
         match out.violations.iter().find(|v| v.clause == clause) {
@@ -638,7 +814,7 @@ pub fn replay<P: Prop>(p: &P, path: &std::path::Path) -> Result<(ReplayFile<P::C
     let root = scratch_root();
     let ctx = WorkerCtx { index: 0, dir: root.join("replay") };
     std::fs::create_dir_all(&ctx.dir).map_err(|e| e.to_string())?;
-    let out = p.execute(&Arc::new(rf.case.clone()), &rf.sched, &ctx, None, true);
+    let out = exec_case(p, &Arc::new(rf.case.clone()), &rf.sched, &ctx, true);
     let _ = std::fs::remove_dir_all(&root);
     if let Some(e) = out.harness_error {
         return Err(e);
